@@ -126,6 +126,78 @@ static std::string basisCheck(const LP& lp, const VarStatus* rows, const VarStat
    return e.str();
 }
 
+// second signature of known finding C08/aggregation-cancellation-residue: the same presolve with the zero tolerance raised from
+// 1e-16 to 1e-11 (so that a ~1e-15 cancellation residue is dropped instead of being used as a coefficient, e.g. a "row
+// singleton" -3.6e-15 x <= 7.1e-15 turned into the bound x >= -2) reproduces the planted class and optimum
+static bool residueOnly(const Case& c)
+{
+   const LP& lp = c.lp;
+   int cls = c.pl.cls;
+   SPxOut out;
+   out.setVerbosity(SPxOut::ERROR);
+   auto tol = std::make_shared<Tolerances>();
+   tol->setEpsilon(1e-11);
+   SPxMainSM<double> sm;
+   sm.setOutstream(out);
+   sm.setTolerances(tol);
+   sm.setMinReduction(c.find("minred") ? c.find("minred")->q(0).get_d() : 1e-4);
+   SPxLPBase<double> work;
+   work.setOutstream(out);
+   work.setTolerances(tol);
+   toSPxLP(lp, work);
+   SPxSimplifier<double>::Result res;
+   try
+   {
+      res = sm.simplify(work, infinity, c.geti("keepbounds") != 0, (uint32_t) c.geti("seed"));
+   }
+   catch(const SPxException&)
+   {
+      return false;
+   }
+   auto near = [&](const Q & z)
+   {
+      return qabs(z - c.pl.z) <= Q(1, 1000000) * (1 + qabs(c.pl.z));
+   };
+   if(res == SPxSimplifier<double>::INFEASIBLE) return cls == CL_INF || cls == CL_INFUNB;
+   if(res == SPxSimplifier<double>::UNBOUNDED || res == SPxSimplifier<double>::DUAL_INFEASIBLE) return cls == CL_UNB || cls == CL_INFUNB;
+   if(res == SPxSimplifier<double>::VANISHED)
+   {
+      if(cls != CL_OPT) return false;
+      int m = lp.m(), n = lp.n();
+      VectorBase<double> x0(0), y0(0), s0(0), r0(0);
+      std::vector<VarStatus> rs(m + 1, Solver::BASIC), cs(n + 1, Solver::ON_LOWER);
+      try
+      {
+         sm.unsimplify(x0, y0, s0, r0, rs.data(), cs.data());
+      }
+      catch(const SPxException&)
+      {
+         return false;
+      }
+      return near(lp.objval(toQ(sm.unsimplifiedPrimal())));
+   }
+   LP red;
+   fromSPxLP(work, red);
+   if(red.m() > 16 || red.n() > 16) return false;
+   Q delta(1, 1000000000);
+   for(int j = 0; j < red.n(); j++)
+   {
+      if(isFin(red.lo[j])) red.lo[j] -= delta * (1 + qabs(red.lo[j]));
+      if(isFin(red.up[j])) red.up[j] += delta * (1 + qabs(red.up[j]));
+   }
+   for(int i = 0; i < red.m(); i++)
+   {
+      if(isFin(red.lhs[i])) red.lhs[i] -= delta * (1 + qabs(red.lhs[i]));
+      if(isFin(red.rhs[i])) red.rhs[i] += delta * (1 + qabs(red.rhs[i]));
+   }
+   Q zr;
+   int rc = z3Classify(red, &zr);
+   if(cls == CL_OPT) return rc == CL_OPT && near(zr + qd((double) sm.getObjoffset()) + lp.offset);
+   if(cls == CL_INF || cls == CL_INFUNB) return rc == CL_INF;
+   if(cls == CL_UNB) return rc == CL_UNB;
+   return false;
+}
+
 static Verdict runInner(const Case& c)
 {
    Verdict v;
@@ -336,6 +408,11 @@ static Verdict runInner(const Case& c)
             if(knownKey("aggregation-cancellation-residue") && blowupOnly())
             {
                e.count("excluded_known.aggregation-cancellation-residue");
+               return;
+            }
+            if(knownKey("aggregation-cancellation-residue") && residueOnly(c))
+            {
+               e.count("excluded_known.aggregation-cancellation-residue.gone_with_epsilon_1e-11");
                return;
             }
             v.fail("reduced LP " + what + " but the original LP is planted " + className(cls));
